@@ -4,6 +4,10 @@ use crate::report::Rep;
 use crate::world::World;
 
 pub mod c05;
+pub mod c06;
+pub mod c07;
+pub mod c09;
+pub mod c10;
 pub mod c08;
 pub mod script;
 
@@ -13,7 +17,11 @@ use script::{Act, Alpha};
 pub fn dispatch(check: &str, rep: &mut Rep) -> bool {
     match check {
         "c05" => c05::run(rep),
+        "c06" => c06::run(rep),
+        "c07" => c07::run(rep),
         "c08" => c08::run(rep),
+        "c09" => c09::run(rep),
+        "c10" => c10::run(rep),
         _ => return false,
     }
     true
